@@ -8,7 +8,13 @@ Tie:
      last, through brackets, call syntax and tuple apply; assignments between views of equal and of different extents
      through every overload; each in a forked child; SIGABRT with an assertion message naming a file under
      include/boost/multi is required exactly where the property demands it, and the model's asrt_* verdict (which
-     operator[] level aborts; which overload checks what) is compared; the assignment operands are views over two
+     operator[] level aborts; which overload checks what) is compared; the index tests go through EVERY ENTRY POINT
+     (r[i].., r(i,..), r.apply(tuple), r[tuple], r.front() / back() / begin()[k] / *(begin()+k) / end()[-k] followed by
+     brackets, r.home()[..], r.elements()[n], r.elements_at(n)) on EVERY RECEIVER KIND (const_subarray, subarray,
+     move_subarray, array_ref, array, static_array; lvalue, const lvalue, std::move, temporary, unary +;
+     harness/common/c20_recv.hpp, coq/Model/AssertsRecv.v, C20_index_receiver_irrelevant): a matrix of all 13 x 21 cells for
+     rank 1..4, zero-based and with index bases, on every run, plus drawn cells on the views of the view programs; in-range
+     accesses must return the element the model computes in all three builds; the assignment operands are views over two
      buffers, ALIASING views of one array (same first element and strides with different extents, overlapping blocks,
      sub-blocks, rows vs columns, the same elements) and whole-root array_refs (two buffers or one), each pair through
      every overload-selecting statement; a model-independent monitor compares the library's own report of the operands'
@@ -98,6 +104,9 @@ PROBES = [
     ("x_elements_at_beyond", "abort", "violating", "idx_<_this->num_elements()"),
     ("x_elements_at_beyond_const", "abort", "violating", "idx_<_this->num_elements()"),
     ("x_elements_at_beyond_rvalue", "abort", "violating", "idx_<_this->num_elements()"),
+    ("x_elements_at_negative", "abort", "violating", None),          # stopped by the inner operator[] assertion (signed size_type)
+    ("x_elements_at_negative_row", "abort", "violating", None),
+    ("x_elements_at_1d_negative", "abort", "violating", None),
     ("x_elements_at_1d_beyond", "abort", "violating", "idx_<_this->num_elements()"),
     ("x_elements_at_1d_beyond_const", "abort", "violating", "idx_<_this->num_elements()"),
     ("x_elements_at_1d_beyond_rvalue", "abort", "violating", "idx_<_this->num_elements()"),
@@ -350,6 +359,22 @@ class DeathFamily(progcheck.Family):
 
 
 S_EXT = re.compile(r" ext=(\S*) ")
+# harness/common/c20_recv.hpp, coq/Model/AssertsRecv.v
+ENTRY_TEXT = {"B": "r[i0][i1]..", "C": "r(i0,i1,..)", "T": "r.apply(tuple)", "U": "r[tuple]", "F": "r.front()[i1]..", "K": "r.back()[i1]..",
+              "I": "r.begin()[k][i1]..", "S": "(*(r.begin()+k))[i1]..", "N": "r.end()[-k][i1]..", "H": "r.home()[k0][k1]..",
+              "E": "r.elements()[n]", "A": "r.elements_at(n)", "Ax": "r.elements_at(num_elements()+k)"}
+RECV_TEXT = {"cv_l": "a named const_subarray", "cv_c": "a const const_subarray", "cv_r": "an rvalue const_subarray",
+             "sv_l": "a named subarray", "sv_c": "a const subarray", "sv_r": "an rvalue subarray (std::move)", "sv_t": "a temporary subarray",
+             "mv_l": "a named move_subarray", "mv_r": "a temporary move_subarray",
+             "ref_l": "an array_ref lvalue", "ref_c": "a const array_ref", "ref_r": "an rvalue array_ref (std::move)", "ref_t": "a temporary array_ref",
+             "arr_l": "an array lvalue", "arr_c": "a const array", "arr_r": "an rvalue array (std::move(A))", "arr_t": "a temporary array",
+             "arr_p": "the array returned by unary + of a view", "sta_l": "a static_array lvalue", "sta_c": "a const static_array",
+             "sta_r": "an rvalue static_array"}
+COQ_ENTRY = {"B": "EBrackets", "C": "ECall", "T": "EApply", "U": "ETupleBr", "F": "EFront", "K": "EBack", "I": "EItIndex", "S": "EItDeref",
+             "N": "EEndIndex", "H": "ECursor"}
+CHECKED_ENTRIES = ("B", "C", "T", "U")            # every level goes through an operator[]
+UNCHECKED_FIRST = ("F", "K", "I", "S", "N")       # the first level evaluates no assertion, the later ones do
+VALID_ONLY = ("H", "E", "A")                      # in-range tuples only
 
 
 def judge_deaths(prog_text, model_text, impl_text):
@@ -374,6 +399,33 @@ def judge_deaths(prog_text, model_text, impl_text):
         iS = [l for l in il if l[:2] in ("S ", "D ", "E ", "O ") and not l.endswith("res=unsupported")]
         unsup = set(l.split()[2] for l in il if l.startswith("O ") and l.endswith("res=unsupported"))
         mS = [l for l in mS if not (l.startswith("O ") and l.split()[2] in unsup)]
+        # the extension the LIBRARY reports for the final view (last S line)
+        ext = None
+        for l in iS:
+            if l.startswith("S "):
+                e = S_EXT.search(l + " ")
+                ext = [tuple(int(x) for x in q.split(":")) for q in e.group(1).split(",")] if e and e.group(1) else []
+        index_bases = bool(ext) and any(f != 0 for f, _t in ext)
+        # index tests the property does not claim (an out-of-range first index handed to an iterator / front / back / cursor /
+        # elements()[n]: none is generated; a hand-written replay may hold one) are not judged; elements_at is judged against
+        # the PROPERTY (silent inside [0, num_elements())): a disagreement is a candidate known finding
+        iD = {l.split()[2]: l for l in iS if l.startswith("D ")}
+        drop = set()
+        for l in mS:
+            if not l.startswith("D "):
+                continue
+            n = l.split()[2]
+            g = iD.get(n)
+            if " res=unclaimed" in l:
+                drop.add(n)
+            elif g is not None and " path=A@" in l and g != l:
+                drop.add(n)
+                rec = {"harness": "h_asserts", "site": "elements_at", "index_bases": index_bases, "expected": "ok",
+                       "got": dict(q.split("=", 1) for q in g.split()[3:]).get("res", "?")}
+                known.append((cid, "death:elements_at-of-a-valid-position-%s" % ("aborted" if rec["got"] == "abort" else "gave-another-element"),
+                              l, (g + "  " + info.get(n, "")).strip(), rec))
+        mS = [l for l in mS if not (l.startswith("D ") and l.split()[2] in drop)]
+        iS = [l for l in iS if not (l.startswith("D ") and l.split()[2] in drop)]
         if any(l.startswith("D ") or l.startswith("S ") for l in mS):
             if mS != iS:
                 a, b = first_diff("\n".join(mS), "\n".join(iS))
@@ -381,25 +433,33 @@ def judge_deaths(prog_text, model_text, impl_text):
                 if b.startswith("O "):
                     n = str(1000 + int(n))
                 extra = info.get(n, "")
-                bad.append((cid, "death:model-and-library-disagree", a, (b + "  " + extra).strip()))
+                why = "death:model-and-library-disagree"
+                if b.startswith("D ") and a.startswith("D ") and "@" in b.split()[3]:
+                    ent, rcv = b.split()[3][5:].split("@", 1)
+                    why += "[%s on %s]" % (ENTRY_TEXT.get(ent, ent), RECV_TEXT.get(rcv, rcv))
+                bad.append((cid, why, a, (b + "  " + extra).strip()))
                 continue
             # direct monitor, independent of the model: outside the printed extension <=> abort
-            ext = None
-            for l in iS:
-                if l.startswith("S "):
-                    e = S_EXT.search(l + " ")
-                    ext = [tuple(int(x) for x in q.split(":")) for q in e.group(1).split(",")] if e and e.group(1) else []
             for l in iS:
                 if not l.startswith("D "):
                     continue
                 p = l.split()
+                ent = p[3][5:].split("@", 1)[0]
                 idx = [int(x) for x in p[4][4:].split(",")] if p[4][4:] else []
-                inside = ext is not None and len(idx) == len(ext) and all(f <= k < t for k, (f, t) in zip(idx, ext))
                 res = p[5][4:]
+                tag = ""
+                if "@" in p[3]:
+                    tag = "[%s on %s]" % (ENTRY_TEXT.get(ent, ent), RECV_TEXT.get(p[3][5:].split("@", 1)[1], "?"))
+                if ent == "Ax":
+                    if res != "abort":
+                        bad.append((cid, "death:elements_at-beyond-num_elements-not-stopped-by-a-library-assertion" + tag, "res=abort",
+                                    l + "  " + info.get(p[2], "")))
+                    continue
+                inside = ext is not None and len(idx) == len(ext) and all(f <= k < t for k, (f, t) in zip(idx, ext))
                 if inside and res != "ok":
-                    bad.append((cid, "death:valid-index-aborted", "res=ok", l + "  " + info.get(p[2], "")))
+                    bad.append((cid, "death:valid-index-aborted" + tag, "res=ok", l + "  " + info.get(p[2], "")))
                 elif not inside and res != "abort":
-                    bad.append((cid, "death:out-of-range-index-not-stopped-by-a-library-assertion", "res=abort", l + "  " + info.get(p[2], "")))
+                    bad.append((cid, "death:out-of-range-index-not-stopped-by-a-library-assertion" + tag, "res=abort", l + "  " + info.get(p[2], "")))
         # ---- assignments: the PROPERTY decides what is expected, the model says what the pinned overload checks ----
         mA = [l for l in ml if l.startswith("A ")]
         gA = [x for x in il if x.startswith("A ")]
@@ -473,6 +533,133 @@ def valid_only(prog_text, model_text):
         if kept:
             out.append("\n".join(lines) + "\n")
     return "".join(out)
+
+
+def valid_index_only(prog_text, model_text):
+    """The index cases of a death program reduced to the accesses the MODEL declares valid (res=ok): valid programs, which
+    run on the unchecked builds too and must read the same element there."""
+    m = core.by_case(model_text)
+    out = []
+    for cid, block in core.split_cases(prog_text):
+        mD = [l for l in m.get(cid, []) if l.startswith("D ")]
+        if not mD or not re.search(r"^oob ", block, re.M):
+            continue
+        ok = [" res=ok " in l + " " for l in mD]
+        lines, k, kept = [], 0, 0
+        for l in block.splitlines():
+            if l.startswith("oob "):
+                if k < len(ok) and ok[k]:
+                    lines.append(l)
+                    kept += 1
+                k += 1
+            elif not l.startswith("xop "):
+                lines.append(l)
+        if kept:
+            out.append("\n".join(lines) + "\n")
+    return "".join(out)
+
+
+def judge_index_configs(deaths, iprog):
+    """valid element accesses (every entry point x receiver kind the death program holds) on the -DNDEBUG and
+    -DBOOST_MULTI_ASSERT_DISABLE builds of h_asserts: res=ok and the value the model computes (= the root address of the
+    element).  Returns (violations, candidates for known findings, number of accesses compared)."""
+    bad, known, n = [], [], 0
+    if not iprog:
+        return bad, known, n
+    want = core.by_case(deaths.model_run(iprog))
+    for cfg, _f in CONFIGS[1:]:
+        if cfg not in deaths.exes:
+            continue
+        out, crashes = deaths.run_cfg(cfg, iprog)
+        for cid, rc, err in crashes:
+            bad.append((cid, "death-harness-crash[%s]" % cfg, "", "signal/exit %s" % rc))
+        got = core.by_case(out)
+        for cid, wl in want.items():
+            gl = got.get(cid, [])
+            if any(l.startswith("U ") for l in gl):
+                continue
+            ext = None
+            for l in gl:
+                if l.startswith("S "):
+                    e = S_EXT.search(l + " ")
+                    ext = [tuple(int(x) for x in q.split(":")) for q in e.group(1).split(",")] if e and e.group(1) else []
+            index_bases = bool(ext) and any(f != 0 for f, _t in ext)
+            gD = {l.split()[2]: l for l in gl if l.startswith("D ")}
+            for l in wl:
+                if not l.startswith("D ") or " res=ok " not in l + " ":
+                    continue
+                n += 1
+                g = gD.get(l.split()[2], "<no output>")
+                if g == l:
+                    continue
+                if " path=A@" in l:
+                    rec = {"harness": "h_asserts", "site": "elements_at", "index_bases": index_bases, "expected": "ok",
+                           "got": dict(q.split("=", 1) for q in g.split()[3:]).get("res", "?") if g.startswith("D ") else "?",
+                           "configuration": cfg}
+                    known.append((cid, "index:elements_at-of-a-valid-position-gives-another-element[%s]" % CFG_TEXT[cfg], l, g, rec))
+                else:
+                    p = l.split()[3][5:]
+                    tag = ""
+                    if "@" in p:
+                        tag = "[%s on %s]" % (ENTRY_TEXT.get(p.split("@")[0], p), RECV_TEXT.get(p.split("@")[1], "?"))
+                    bad.append((cid, "index:valid-access-differs[%s]%s" % (CFG_TEXT[cfg], tag), l, g))
+    return bad, known, n
+
+
+def overload_table_agreement(model_text, impl_text):
+    """A MEASUREMENT, never a verdict: for every out-of-range access on a drawn receiver, the member function that holds the
+    assertion which stopped it (the name glibc prints: operator[] for the const& overload of rank > 1, at_aux_ for the others)
+    against the prediction of the receiver -> overload table of coq/Model/AssertsRecv.v (ov_of, ov_first, first_result, ov_next).
+    Returns (agreeing, [disagreements])."""
+    want = {}
+    for l in model_text.splitlines():
+        if l.startswith("W "):
+            p = l.split()
+            want[(p[1], p[2])] = p[3][3:]
+    n, diff = 0, []
+    for l in impl_text.splitlines():
+        if l.startswith("L "):
+            p = l.split()
+            w = want.get((p[1], p[2]))
+            fn = p[-1][3:] if p[-1].startswith("fn=") else None
+            if w is None or fn is None or "line=0" in l:
+                continue
+            if fn == w:
+                n += 1
+            elif len(diff) < 20:
+                diff.append("%s %s: model %s, library %s" % (p[1], p[2], w, fn))
+    return n, diff
+
+
+def entry_receiver_matrix(prog_text, impl_text):
+    """{entry: {receiver: [aborted, ok, other]}} of the index tests that ran (a measurement for the evidence), and the cells
+    of the entry x receiver matrix that no test reached."""
+    paths = {}
+    for cid, block in core.split_cases(prog_text):
+        k = 0
+        for l in block.splitlines():
+            if l.startswith("oob "):
+                k += 1
+                paths[(cid, str(k))] = l.split()[1]
+    table = {}
+    for l in impl_text.splitlines():
+        if not l.startswith("D "):
+            continue
+        p = l.split()
+        path = paths.get((p[1], p[2]), p[3][5:])
+        ent, rcv = (path.split("@", 1) + ["(plain)"])[:2]
+        cell = table.setdefault(ent, {}).setdefault(rcv, [0, 0, 0])
+        res = p[5][4:]
+        cell[0 if res == "abort" else 1 if res == "ok" else 2] += 1
+    missing = []
+    for ent in CHECKED_ENTRIES + UNCHECKED_FIRST + VALID_ONLY + ("Ax",):
+        for rcv in RECV_TEXT:
+            c = table.get(ent, {}).get(rcv, [0, 0, 0])
+            need_abort = ent in CHECKED_ENTRIES + UNCHECKED_FIRST + ("Ax",)
+            need_ok = ent != "Ax"
+            if (need_abort and c[0] == 0) or (need_ok and c[1] == 0):
+                missing.append("%s@%s" % (ent, rcv))
+    return table, missing
 
 
 def judge_configs(deaths, vprog, impl_dbg_valid, probe_names=None):
@@ -668,10 +855,20 @@ def vm_crosscheck(prog_text, obs_text, limit=250):
                 root = [l for l in lines if l and l[0] == "root"][0]
                 ops = "[%s]" % "; ".join(_coq_op(l[1:]) for l in lines if l and l[0] == "op")
                 dl = [l for l in obs.get(cid, []) if l.startswith("D ")]
-                for n, l in enumerate([l for l in lines if l and l[0] == "oob"][:3]):
-                    idx = "[%s]" % "; ".join(_z(x) for x in l[2:])
-                    evals.append("Eval vm_compute in (c20_lvl %s %s %s)." % (_coq_exts(root[2:]), ops, idx))
+                taken = 0
+                for n, l in enumerate([l for l in lines if l and l[0] == "oob"]):
+                    ent = l[1].split("@")[0]
+                    if taken >= 3 or ent not in COQ_ENTRY or n >= len(dl):
+                        continue
                     f = dict(q.split("=", 1) for q in dl[n].split()[3:])
+                    if f["res"] not in ("ok", "abort"):
+                        continue
+                    taken += 1
+                    idx = "[%s]" % "; ".join(_z(x) for x in l[2:])
+                    if "@" in l[1]:
+                        evals.append("Eval vm_compute in (c20_lvle %s %s %s %s)." % (COQ_ENTRY[ent], _coq_exts(root[2:]), ops, idx))
+                    else:
+                        evals.append("Eval vm_compute in (c20_lvl %s %s %s)." % (_coq_exts(root[2:]), ops, idx))
                     expect.append((cid, 0 if f["res"] == "ok" else int(f["rank"])))
             elif any(l and l[0] == "asg" for l in lines):
                 dr = [l for l in lines if l and l[0] == "droot"][0]
@@ -689,7 +886,10 @@ def vm_crosscheck(prog_text, obs_text, limit=250):
             continue
     if not evals:
         return 0, []
-    src = ("From BM Require Import Base.Tactics Model.Layout Model.View Model.Assign Model.Asserts.\nLocal Open Scope Z_scope.\n"
+    src = ("From BM Require Import Base.Tactics Model.Layout Model.View Model.Assign Model.Asserts Model.AssertsRecv.\nLocal Open Scope Z_scope.\n"
+           "Definition c20_lvle (e : entry) (x : list range) (ops : list op) (idx : list Z) : Z :=\n"
+           "  match run_ops ops (root_view x) with\n  | Some v => match abort_level_entry e v idx with None => 0 | Some k => Z.of_nat (length (lay v)) - Z.of_nat k end\n"
+           "  | None => -1 end.\n"
            "Definition c20_lvl (x : list range) (ops : list op) (idx : list Z) : Z :=\n"
            "  match run_ops ops (root_view x) with\n  | Some v => match abort_level v idx with None => 0 | Some k => Z.of_nat (length (lay v)) - Z.of_nat k end\n"
            "  | None => -1 end.\n"
@@ -856,6 +1056,9 @@ def run(tier, seed, replay=None):
             impl_v = deaths.run_cfg("dbg", vprog)[0] if vprog else ""
             cbad, _n = judge_configs(deaths, vprog, impl_v, probe_names=set(re.findall(r"^probe (\S+)", probes, re.M)))
             bad += cbad
+            if others:
+                ibad, iknown, _n = judge_index_configs(deaths, valid_index_only(others, deaths.model_run(others)))
+                bad, known = bad + ibad, known + iknown
             n = 0
             for cid, found_by, want, got, rec in known:
                 kf = match_known_rec(rec)
@@ -965,7 +1168,7 @@ def run(tier, seed, replay=None):
     # ---- (b) death tests ----
     n_death = 1200 if quick else 8000
     death_cfgs = ["dbg"] + (["asan"] if tier == "thorough" else [])
-    prog_d, obs_d, dd = deaths.generate(seed + 101, n_death, extra=["--maxops", "4" if quick else "6", "--asg-pct", "40"], prefix="d")
+    prog_d, obs_d, dd = deaths.generate(seed + 101, n_death, extra=["--maxops", "4" if quick else "6", "--asg-pct", "40", "--matrix"], prefix="d")
     prog_r, obs_r, dr = deaths.generate(seed + 102, 110 if quick else 1800, extra=["--maxops", "4", "--asg-pct", "0", "--rebased"],
                                         prefix="r")
     prog_c = "".join(corpus.get("deaths", []))
@@ -976,6 +1179,8 @@ def run(tier, seed, replay=None):
     dist["deaths-rebased"] = dr
     all_progs.append(prog_death)
     n_D = n_A = 0
+    er_table, er_missing = {}, []
+    ov_agree, ov_diff = 0, []
     for cfg in death_cfgs:
         deaths.which = cfg
         impl, crashes = deaths.run_cfg(cfg, prog_death + probe_prog())
@@ -984,6 +1189,16 @@ def run(tier, seed, replay=None):
             bad.append((cid, "death:harness-crash[%s]" % cfg, "", "signal/exit %s: %s" % (rc, (err.strip().splitlines() or [""])[-1][:300])))
         pb, pk = judge_probes(impl)
         n_fail += report(res, bad + pb, known + pk, prog_death + probe_prog(), deaths)
+        if cfg == "dbg":
+            er_table, er_missing = entry_receiver_matrix(prog_death, impl)
+            ov_agree, ov_diff = overload_table_agreement(obs_death, impl)
+            if er_missing and n_fail == 0:
+                # the generator's own promise: every entry point on every receiver kind, stopped and silent
+                path = core.write_replay(PID, "", {"property": PID, "found-by": "generator:entry-x-receiver-cells-not-exercised",
+                                                   "cells": " ".join(er_missing)})
+                res.violation(path, "index tests did not reach %d entry x receiver cells: %s" % (len(er_missing), " ".join(er_missing[:12])),
+                              no_input=True)
+                n_fail += 1
         n_D += len(re.findall(r"^D ", impl, re.M))
         n_A += len(re.findall(r"^A ", impl, re.M))
         evals += len(core.split_cases(prog_death)) + len(PROBES)
@@ -1001,6 +1216,12 @@ def run(tier, seed, replay=None):
     n_fail += report(res, cbad, [], vprog + "".join("case KV%d\nprobe %s\nend\n" % (k, p[0]) for k, p in enumerate(PROBES) if p[1] == "ok"), None)
     evals += 2 * len(core.split_cases(vprog))
     lines_cmp += 2 * n_cfg
+    # ---- (b'') the valid element accesses (every entry point x receiver kind) in the two unchecked configurations ----
+    iprog = valid_index_only(prog_death, obs_death)
+    ibad, iknown, n_icfg = judge_index_configs(deaths, iprog)
+    n_fail += report(res, ibad, iknown, iprog, None)
+    evals += 2 * len(core.split_cases(iprog))
+    lines_cmp += n_icfg
     n_vm = 0
     if tier == "thorough":
         n_vm, vm_bad = vm_crosscheck(prog_d, obs_d)
@@ -1042,7 +1263,21 @@ def run(tier, seed, replay=None):
                 "runs on three builds of the UNCHANGED harness source (default, -DNDEBUG, -DBOOST_MULTI_ASSERT_DISABLE); "
                 "(b) death tests: for the final view of a view program (rank 1..6), for up to three dimensions: index first-1, last, "
                 "last+1..3, first-2..4, plus two wrong indices at once and one all-valid control tuple, through brackets (55%), call "
-                "syntax (27%), tuple apply (18%); after them up to ~8 VIOLATING VIEW-FORMING CALLS on the same view for which the "
+                "syntax (27%), tuple apply (18%); 55% of these tuples (views of rank <= 4) are sent through a drawn ENTRY POINT on a drawn "
+                "RECEIVER KIND instead of a named const_subarray (harness/common/c20_recv.hpp; ENTRY: r[i0][i1].. 6, r(i0,..) 3, "
+                "r.apply(tuple) 2, r[tuple] 2 (rank 1); when the first index is in range also r.front() 1, r.back() 1, r.begin()[k] 2, "
+                "*(r.begin()+k) 1, r.end()[-k] 1, each followed by brackets; when the whole tuple is in range also r.home()[..] 2, "
+                "r.elements()[n] 2, r.elements_at(n) 2; RECEIVER: const_subarray / subarray / move_subarray over the view's own elements "
+                "as lvalue, const lvalue, std::move, prvalue temporary (40%; always when the view has an empty dimension), or an OWNING "
+                "COPY of the view -- array, static_array, array_ref over the copy -- as lvalue, const lvalue, std::move(A), prvalue "
+                "temporary, result of unary + (60%); 15% of the out-of-range ones add r.elements_at(num_elements() + 0..3)); plus the "
+                "ENTRY x RECEIVER MATRIX on every run: for rank 1..4 x {zero-based, index bases -3..3} one root of extents 1..4, and for "
+                "each of the 21 receiver kinds one case that sends an in-range tuple through all 13 entry points and an out-of-range "
+                "tuple (below first / at last / beyond / far below, at a drawn dimension; dimension >= 1 for the entries whose first "
+                "level is unchecked) through every entry point that must stop it, and elements_at(num_elements() + k); the run fails "
+                "if a cell of the matrix was not reached; every in-range access must return the value the model computes (the root "
+                "address of the element), on the assertion-enabled build and again on the -DNDEBUG and -DBOOST_MULTI_ASSERT_DISABLE "
+                "builds; after them up to ~8 VIOLATING VIEW-FORMING CALLS on the same view for which the "
                 "model's asrt_op is false (taked/dropped beyond size(), sliced/blocked/sliced-with-stride bounds below first / beyond "
                 "last / at last, partitioned by 0 or a non-divisor, chunked by a non-divisor, halved of an odd size, call-syntax ranges "
                 "and indices out of range in the first and second argument); 40% of the death programs are assignments, each pair of "
@@ -1067,6 +1302,12 @@ def run(tier, seed, replay=None):
         "generator_distribution": dist,
         "observation_lines_compared": lines_cmp,
         "death_tests_index": n_D,
+        "index_entry_x_receiver": {e: {r: "%d stopped / %d silent%s" % (c[0], c[1], (" / %d other" % c[2]) if c[2] else "")
+                                       for r, c in sorted(rs.items())} for e, rs in sorted(er_table.items())},
+        "index_entry_x_receiver_cells_not_reached": er_missing,
+        "overload_table_aborts_agreeing_with_the_named_member_function": ov_agree,
+        "overload_table_disagreements (measurement, not a verdict)": ov_diff,
+        "valid_index_accesses_compared_in_unchecked_builds": n_icfg,
         "death_tests_assignment": n_A,
         "valid_assignment_statements_compared_in_unchecked_builds": n_cfg,
         "vm_compute_cross_checks": n_vm,
@@ -1088,7 +1329,18 @@ def run(tier, seed, replay=None):
                           "violating calls under -DBOOST_MULTI_ASSERT_DISABLE (the plain asserts that stay live there are modelled, "
                           "asrt_plain, but the death tests run on the default configuration only)",
                           "1-D stride-0 views (array_ref.hpp iterator assertions stride() != 0 of the D = 1 iterator)",
-                          "BLAS/FFTW/MPI adaptor assertions"],
+                          "BLAS/FFTW/MPI adaptor assertions",
+                          "out-of-range FIRST indices handed to front() / back() of an empty view, to an iterator (begin()[k], *(begin()+k), "
+                          "end()[-k] with k outside [0, size())), to a cursor (home()[k]..) and to elements()[n] of a VIEW: these entry points "
+                          "hold no extension and evaluate no assertion in the library (array_ref.hpp:546, :561, :703-717, :914-916, :1173-1174; "
+                          "README:1914-1919), the property's wording (indexing outside a VIEW's extension) does not cover them; they are run with "
+                          "in-range first indices only, the levels after them are death-tested (C20_unchecked_first_level)",
+                          "operator[](tuple) for rank > 1 (array_ref.hpp:1164 does not instantiate with std::tuple / std::array arguments)",
+                          "receiver kinds at ranks 5 and 6 (the entry x receiver code is instantiated for ranks 1..4; higher ranks go through "
+                          "the named const_subarray paths as before); owning receivers of views with an empty dimension (an owning array "
+                          "collapses the other extents)",
+                          "elements_at with a negative argument (size_type is signed: it passes idx < num_elements() and is stopped by the inner "
+                          "operator[] assertion; two probes x_elements_at_negative*)"],
     })
     res.assumptions = ["no 64-bit overflow in index arithmetic", "g++ 12 / glibc assert() message format (file:line: function: Assertion `expr' failed.)",
                        "base pointers of harness roots are non-null (empty roots are array_ref over a 1-element buffer); the null-base "
